@@ -31,6 +31,40 @@ if REPO != '/repo':
 GOENV = dict(GOFLAGS='-mod=mod', GOPROXY='off', GOSUMDB='off', GOTOOLCHAIN='local')
 
 
+class _Slot:
+    """Machine-wide semaphore for heavy jobs (TLC runs): at most VERIF_SLOTS (default 4) at a time, so that
+    many checks started in parallel do not oversubscribe the 16 cores / RAM."""
+    def __init__(self, kind='tlc', n=None):
+        self.kind = kind
+        self.n = n or int(os.environ.get('VERIF_SLOTS', '4'))
+        self.f = None
+
+    def __enter__(self):
+        d = os.path.join(tempfile.gettempdir(), 'verif-slots')
+        os.makedirs(d, exist_ok=True)
+        t0 = time.time()
+        while True:
+            for i in range(self.n):
+                f = open(os.path.join(d, '%s-%d.lock' % (self.kind, i)), 'w')
+                try:
+                    fcntl.flock(f, fcntl.LOCK_EX | fcntl.LOCK_NB)
+                    self.f = f
+                    w = time.time() - t0
+                    if w > 5:
+                        log('[slot] waited %.0fs for a %s slot' % (w, self.kind))
+                    return self
+                except OSError:
+                    f.close()
+            time.sleep(0.5 + (os.getpid() % 7) / 10.0)
+
+    def __exit__(self, *a):
+        try:
+            fcntl.flock(self.f, fcntl.LOCK_UN)
+            self.f.close()
+        except Exception:
+            pass
+
+
 class Broken(Exception):
     """Machinery failure: exit 2."""
 
@@ -110,7 +144,7 @@ TLC_JAR = '/opt/veriftools/tla/tla2tools.jar:/opt/veriftools/tla/CommunityModule
 
 
 def _tlc_cmd(args, heap=None, dfs=False, xss='512m'):
-    cmd = ['java', '-XX:+UseParallelGC', '-Xss' + xss]
+    cmd = ['java', '-XX:+UseParallelGC', '-XX:ParallelGCThreads=4', '-Xss' + xss]
     if heap:
         cmd.append('-Xmx' + heap)
     if dfs:
@@ -159,7 +193,7 @@ class Ctx:
 
     # -- exhaustive model checking -------------------------------------------------
     def tlc_mc(self, module, cfg=None, workers=8, timeout=900, fam=None, expect_violation=False,
-               coverage=False, heap='8g', stage=None, count=True, extra_args=()):
+               coverage=False, heap='6g', stage=None, count=True, extra_args=()):
         d = stage or self.stage(fam)
         cfg = cfg or module + '.cfg'
         args = ['-workers', str(workers), '-metadir', os.path.join(d, 'md-' + module + str(time.time())),
@@ -171,7 +205,9 @@ class Ctx:
         t0 = time.time()
         cmd = _tlc_cmd(args, heap=heap)
         self.checker_cmds.append('tlc ' + ' '.join(args[:-1]).replace(d, '<scratch>') + ' ' + module)
-        rc, out = sh(cmd, cwd=d, timeout=timeout)
+        with _Slot():
+            t0 = time.time()
+            rc, out = sh(cmd, cwd=d, timeout=timeout)
         res = parse_tlc(out)
         res.update(rc=rc, wall=time.time() - t0, out=out, dir=d, module=module, cfg=cfg)
         if rc == 124:
@@ -202,8 +238,9 @@ class Ctx:
         args = ['-workers', '1', '-simulate', 'file=%s/b,num=%d' % (outdir, num), '-depth', str(depth),
                 '-seed', str(seed), '-metadir', os.path.join(d, 'md-sim' + str(time.time())), '-config', cfg,
                 '-noGenerateSpecTE', module]
-        t0 = time.time()
-        rc, out = sh(_tlc_cmd(args, heap='4g'), cwd=d, timeout=timeout)
+        with _Slot():
+            t0 = time.time()
+            rc, out = sh(_tlc_cmd(args, heap='4g'), cwd=d, timeout=timeout)
         if rc == 124:
             raise Broken('TLC simulate timeout %s/%s' % (module, cfg))
         if rc != 0 and 'Error' in out:
@@ -228,8 +265,9 @@ class Ctx:
         d = stage or self.stage(fam)
         args = ['-workers', str(workers), '-metadir', os.path.join(d, 'md-gen' + str(time.time())), '-config', cfg,
                 '-noGenerateSpecTE', module]
-        t0 = time.time()
-        rc, out = sh(_tlc_cmd(args, heap=heap), cwd=d, timeout=timeout)
+        with _Slot():
+            t0 = time.time()
+            rc, out = sh(_tlc_cmd(args, heap=heap), cwd=d, timeout=timeout)
         if rc == 124:
             raise Broken('TLC genall timeout %s/%s' % (module, cfg))
         res = parse_tlc(out)
@@ -273,8 +311,9 @@ class Ctx:
         shutil.copy(trace_path, os.path.join(d, 'trace.ndjson'))
         total = sum(1 for l in open(trace_path) if l.strip())
         args = ['-workers', '1', '-metadir', os.path.join(d, 'md-tr' + str(time.time())), '-config', cfg, '-noGenerateSpecTE', module]
-        t0 = time.time()
-        rc, out = sh(_tlc_cmd(args, heap=heap, dfs=dfs), cwd=d, timeout=timeout)
+        with _Slot():
+            t0 = time.time()
+            rc, out = sh(_tlc_cmd(args, heap=heap, dfs=dfs), cwd=d, timeout=timeout)
         if rc == 124:
             raise Broken('TLC trace validation timeout %s' % module)
         res = parse_tlc(out)
